@@ -88,6 +88,7 @@ type Config struct {
 	// FreeSites get unbounded deviations (do not consume MaxDev).
 	FreeSites  map[int]bool
 	NumCPU     int       // value returned by NumCPU() while attached (0 = real)
+	MaxProcs   int       // value returned by GOMAXPROCS(0) while attached (0 = the same as NumCPU): GOMAXPROCS can be set above the number of CPUs
 	Deadline   time.Time // zero = none; when reached the search stops with Exhaustive=false
 	MaxExecs   int64     // 0 = none
 	Shard      int
@@ -149,6 +150,7 @@ type thread struct {
 	obj    Object
 	arg    int
 	done   bool
+	tail   bool // the thread's function has returned; only bookkeeping of the spawning primitive remains
 	name   string
 	cname  [2]uint64 // canonical name: hash(parent cname, spawn index)
 	hash   [2]uint64 // Merkle hash of this thread's events (each includes the object's previous hash)
@@ -212,12 +214,16 @@ func (x *Exec) ThreadID() int { return x.running }
 func (x *Exec) Unfinished() int {
 	n := 0
 	for _, t := range x.threads {
-		if !t.done && t.id != x.running {
+		if !t.done && !t.tail && t.id != x.running {
 			n++
 		}
 	}
 	return n
 }
+
+// Tail marks the running thread as having returned from its function: what remains of it is the
+// bookkeeping of the primitive that spawned it (errgroup's errOnce), not work of the code under test.
+func (x *Exec) Tail() { x.threads[x.running].tail = true }
 
 func (x *Exec) objName(o Object) string {
 	if o == nil {
@@ -951,6 +957,9 @@ func NumCPU() int {
 // which looks at either sees the processor count of the scenario; changes are passed through.
 func GOMAXPROCS(n int) int {
 	if n < 1 {
+		if x := cur; x != nil && x.cfg.MaxProcs > 0 {
+			return x.cfg.MaxProcs
+		}
 		if x := cur; x != nil && x.cfg.NumCPU > 0 {
 			return x.cfg.NumCPU
 		}
